@@ -2,22 +2,25 @@
 C20 — thriftbreak flags exactly the documented breaking changes.
 
 Property theorems only. Model: M-Break (`ThriftVerif/Break/Model.lean`): `compareModules`
-≙ compare.Pass.CompareModules on summaries of two compiled modules, `run` ≙ the loop of
-git.Compare over the changed-file list + main.go's exit status. "required" is thriftrw's
-effective requiredness (`FieldSpec.Required`: declared required and no default).
+≙ compare.Pass.CompareModules on summaries of two compiled modules, `thriftbreak` ≙
+findChangedThrift's conversion of go-git's tree diff + the loop of git.Compare + main.go's exit
+status. "required" is thriftrw's effective requiredness (`FieldSpec.Required`: declared required
+and no default).
 
-Three behaviours of the current code keep clauses of the property from holding at full
-strength; the model reproduces them, each has a `…_counterexample` proved on a concrete
-witness and the clause is stated as `…_partial` under exactly the excluding hypothesis:
+`Snapshot old new diff` is the input domain of the property — the diff is a diff of two committed
+trees whose .thrift files compile — not a restriction.
 
-  D30  a commit for which go-git reports a *rename* (or pairs an unrelated deleted file with
-       an added one) makes git.Compare compile the old path in the new tree: the run aborts,
-       exit 1, nothing printed (`NoAbort` excludes it) — affects every `…_flagged` clause and
-       `exit_nonzero_iff_nonempty`;
-  D31  "deleting service" / "removing method" diagnostics carry only the base name of the
-       file (`c.file = [x]`, a file in the repository root, excludes it);
-  D32  is about `Type.ThriftName()` (x.Foo and y.Foo have the same name); the model works on
-       ThriftNames, so it is outside these theorems and is observed by the harness oracle.
+History of the clauses that did not hold of the code as found:
+  D30  (fixed, /repo 623e258) a rename — or an unrelated deleted file go-git pairs with an added
+       one — was compiled under its old path in the new tree: the run aborted, exit 1, nothing
+       printed. `changeOf` now models the repaired conversion (the old path was deleted);
+       `never_aborts` and `rename_reported_as_deletion` are the regression theorems;
+  D35  (fixed, /repo 6601ea9) "removing method" carried only the base name of the file;
+  D31  (known; pinned by internal/git/git_test.go) "deleting service" still carries only the base
+       name: `removed_service_flagged_partial` holds for files in the repository root,
+       `removed_service_flagged_basename` says what is reported otherwise, with a counterexample;
+  D32  (known) is about `Type.ThriftName()` (x.Foo and y.Foo have the same name); the model works
+       on ThriftNames, so it is outside these theorems and is observed by the harness oracle.
 -/
 import ThriftVerif.Break.FlagProofs
 import ThriftVerif.Break.SilentProofs
@@ -26,91 +29,81 @@ import ThriftVerif.Break.OrderProofs
 namespace ThriftVerif.Properties.C20
 open ThriftVerif.Break
 
-variable {o : Path → Orders} {old new : Tree} {cs : List Change} {c : Change} {frm to : Module}
+variable {o : Path → Orders} {old new : Tree} {diff : List DiffEntry} {e : DiffEntry} {frm to : Module}
 
-/-! ### every documented breaking edit is flagged -/
+/-! ### every documented breaking edit is flagged
 
-/-- A service of a changed (or deleted) file that is absent from the version it is compared with is
-reported, for that file. PARTIAL: only when the run is not aborted (D30) and the file lies in the
-repository root (D31); `removed_service_flagged_basename` says what is reported otherwise. -/
-theorem removed_service_flagged_partial (hna : NoAbort old new cs) (hc : c ∈ cs)
-    (hfrm : lookupModule old c.file = some frm) (hto : toModule new c = some to)
-    {n : String} {s : Service} (hn : n ∈ (o c.file).services) (hs : lookupSvc frm.services n = some s)
-    (hgone : lookupSvc to.services n = none) {x : String} (hroot : c.file = [x]) :
-    ∃ ds, run o old new cs = some ds ∧ Diag.deletedService c.file n ∈ ds := by
-  have hd := compareModules_deletedService (o := o c.file) hn hs hgone
+In each clause `e` is an entry of the tree diff (a changed, deleted or renamed file), `frm` the old
+version of that file and `to` what it is compared with (`toModule`: the new version of a file that
+kept its name, the empty module for a deleted or renamed one). -/
+
+/-- A service of the old version that is absent from the compared version is reported, for that
+file. PARTIAL (D31): only for a file in the repository root; see the `_basename` version. -/
+theorem removed_service_flagged_partial (hsn : Snapshot old new diff) (he : e ∈ diff)
+    (hfrm : lookupModule old e.src = some frm) (hto : toModule new (changeOf e) = some to)
+    {n : String} {s : Service} (hn : n ∈ (o e.src).services) (hs : lookupSvc frm.services n = some s)
+    (hgone : lookupSvc to.services n = none) {x : String} (hroot : e.src = [x]) :
+    ∃ ds, thriftbreak o old new diff = some ds ∧ Diag.deletedService e.src n ∈ ds := by
+  have hd := compareModules_deletedService (o := o e.src) hn hs hgone
   rw [(lookupModule_some hfrm).2, hroot, baseName_root, ← hroot] at hd
-  exact run_reports hna hc hfrm hto hd
+  exact thriftbreak_reports hsn he hfrm hto hd
 
 /-- … in general the diagnostic names the base name of the file. -/
-theorem removed_service_flagged_basename (hna : NoAbort old new cs) (hc : c ∈ cs)
-    (hfrm : lookupModule old c.file = some frm) (hto : toModule new c = some to)
-    {n : String} {s : Service} (hn : n ∈ (o c.file).services) (hs : lookupSvc frm.services n = some s)
+theorem removed_service_flagged_basename (hsn : Snapshot old new diff) (he : e ∈ diff)
+    (hfrm : lookupModule old e.src = some frm) (hto : toModule new (changeOf e) = some to)
+    {n : String} {s : Service} (hn : n ∈ (o e.src).services) (hs : lookupSvc frm.services n = some s)
     (hgone : lookupSvc to.services n = none) :
-    ∃ ds, run o old new cs = some ds ∧ Diag.deletedService (baseName c.file) n ∈ ds := by
-  have hd := compareModules_deletedService (o := o c.file) hn hs hgone
+    ∃ ds, thriftbreak o old new diff = some ds ∧ Diag.deletedService (baseName e.src) n ∈ ds := by
+  have hd := compareModules_deletedService (o := o e.src) hn hs hgone
   rw [(lookupModule_some hfrm).2] at hd
-  exact run_reports hna hc hfrm hto hd
+  exact thriftbreak_reports hsn he hfrm hto hd
 
-/-- A function of a surviving service that is absent from the new version is reported, for that
-file. PARTIAL: as `removed_service_flagged_partial` (D30, D31). -/
-theorem removed_method_flagged_partial (hna : NoAbort old new cs) (hc : c ∈ cs)
-    (hfrm : lookupModule old c.file = some frm) (hto : toModule new c = some to)
-    {n fn : String} {s t : Service} (hn : n ∈ (o c.file).services) (hs : lookupSvc frm.services n = some s)
-    (ht : lookupSvc to.services n = some t) (hfn : fn ∈ s.functions) (hord : fn ∈ (o c.file).functions n)
-    (hgone : fn ∉ t.functions) {x : String} (hroot : c.file = [x]) :
-    ∃ ds, run o old new cs = some ds ∧ Diag.removedMethod c.file n fn ∈ ds := by
-  have hd := compareModules_removedMethod (o := o c.file) hn hs ht hfn hord hgone
-  rw [(lookupModule_some hfrm).2, hroot, baseName_root, ← hroot] at hd
-  exact run_reports hna hc hfrm hto hd
-
-theorem removed_method_flagged_basename (hna : NoAbort old new cs) (hc : c ∈ cs)
-    (hfrm : lookupModule old c.file = some frm) (hto : toModule new c = some to)
-    {n fn : String} {s t : Service} (hn : n ∈ (o c.file).services) (hs : lookupSvc frm.services n = some s)
-    (ht : lookupSvc to.services n = some t) (hfn : fn ∈ s.functions) (hord : fn ∈ (o c.file).functions n)
+/-- A function of a surviving service that is absent from the new version is reported, with the
+file's path. -/
+theorem removed_method_flagged (hsn : Snapshot old new diff) (he : e ∈ diff)
+    (hfrm : lookupModule old e.src = some frm) (hto : toModule new (changeOf e) = some to)
+    {n fn : String} {s t : Service} (hn : n ∈ (o e.src).services) (hs : lookupSvc frm.services n = some s)
+    (ht : lookupSvc to.services n = some t) (hfn : fn ∈ s.functions) (hord : fn ∈ (o e.src).functions n)
     (hgone : fn ∉ t.functions) :
-    ∃ ds, run o old new cs = some ds ∧ Diag.removedMethod (baseName c.file) n fn ∈ ds := by
-  have hd := compareModules_removedMethod (o := o c.file) hn hs ht hfn hord hgone
+    ∃ ds, thriftbreak o old new diff = some ds ∧ Diag.removedMethod e.src n fn ∈ ds := by
+  have hd := compareModules_removedMethod (o := o e.src) hn hs ht hfn hord hgone
   rw [(lookupModule_some hfrm).2] at hd
-  exact run_reports hna hc hfrm hto hd
+  exact thriftbreak_reports hsn he hfrm hto hd
 
 /-- A field of the new version of an existing struct whose id is new and which is (effectively)
-required is reported, with the file's path. PARTIAL: only when the run is not aborted (D30). -/
-theorem added_required_flagged_partial (hna : NoAbort old new cs) (hc : c ∈ cs)
-    (hfrm : lookupModule old c.file = some frm) (hto : toModule new c = some to)
-    {n : String} {s t : Struct} {x : Field} (hn : n ∈ (o c.file).types)
+required is reported, with the file's path. -/
+theorem added_required_flagged (hsn : Snapshot old new diff) (he : e ∈ diff)
+    (hfrm : lookupModule old e.src = some frm) (hto : toModule new (changeOf e) = some to)
+    {n : String} {s t : Struct} {x : Field} (hn : n ∈ (o e.src).types)
     (hs : lookupStruct frm.structs n = some s) (ht : lookupStruct to.structs n = some t)
     (hx : x ∈ t.fields) (hreq : x.required = true) (hnew : ∀ f ∈ s.fields, f.id ≠ x.id) :
-    ∃ ds, run o old new cs = some ds ∧ Diag.addedRequired c.file n x.name ∈ ds := by
-  have hd := compareModules_addedRequired (o := o c.file) hn hs ht hx hreq hnew
+    ∃ ds, thriftbreak o old new diff = some ds ∧ Diag.addedRequired e.src n x.name ∈ ds := by
+  have hd := compareModules_addedRequired (o := o e.src) hn hs ht hx hreq hnew
   rw [(lookupModule_some hfrm).2] at hd
-  exact run_reports hna hc hfrm hto hd
+  exact thriftbreak_reports hsn he hfrm hto hd
 
-/-- (`optional_to_required_flagged`; the name is abbreviated so that `#print axioms` output stays on
-one line for bin/check's parser.) A field (same id) that was effectively optional and is
-effectively required is reported. PARTIAL: only when the run is not aborted (D30). -/
-theorem opt_to_required_flagged_partial (hna : NoAbort old new cs) (hc : c ∈ cs)
-    (hfrm : lookupModule old c.file = some frm) (hto : toModule new c = some to)
-    {n : String} {s t : Struct} {f x : Field} (hn : n ∈ (o c.file).types)
+/-- A field (same id) that was effectively optional and is effectively required is reported. -/
+theorem optional_to_required_flagged (hsn : Snapshot old new diff) (he : e ∈ diff)
+    (hfrm : lookupModule old e.src = some frm) (hto : toModule new (changeOf e) = some to)
+    {n : String} {s t : Struct} {f x : Field} (hn : n ∈ (o e.src).types)
     (hs : lookupStruct frm.structs n = some s) (ht : lookupStruct to.structs n = some t) (hwf : s.wf)
     (hf : f ∈ s.fields) (hx : x ∈ t.fields) (hid : f.id = x.id)
     (hopt : f.required = false) (hreq : x.required = true) :
-    ∃ ds, run o old new cs = some ds ∧ Diag.optToRequired c.file n x.name ∈ ds := by
-  have hd := compareModules_optToRequired (o := o c.file) hn hs ht hwf hf hx hid hopt hreq
+    ∃ ds, thriftbreak o old new diff = some ds ∧ Diag.optToRequired e.src n x.name ∈ ds := by
+  have hd := compareModules_optToRequired (o := o e.src) hn hs ht hwf hf hx hid hopt hreq
   rw [(lookupModule_some hfrm).2] at hd
-  exact run_reports hna hc hfrm hto hd
+  exact thriftbreak_reports hsn he hfrm hto hd
 
-/-- A field (same id) whose type's ThriftName changed is reported, with both names.
-PARTIAL: only when the run is not aborted (D30). -/
-theorem type_name_change_flagged_partial (hna : NoAbort old new cs) (hc : c ∈ cs)
-    (hfrm : lookupModule old c.file = some frm) (hto : toModule new c = some to)
-    {n : String} {s t : Struct} {f x : Field} (hn : n ∈ (o c.file).types)
+/-- A field (same id) whose type's ThriftName changed is reported, with both names. -/
+theorem type_name_change_flagged (hsn : Snapshot old new diff) (he : e ∈ diff)
+    (hfrm : lookupModule old e.src = some frm) (hto : toModule new (changeOf e) = some to)
+    {n : String} {s t : Struct} {f x : Field} (hn : n ∈ (o e.src).types)
     (hs : lookupStruct frm.structs n = some s) (ht : lookupStruct to.structs n = some t) (hwf : s.wf)
     (hf : f ∈ s.fields) (hx : x ∈ t.fields) (hid : f.id = x.id) (hty : f.type ≠ x.type) :
-    ∃ ds, run o old new cs = some ds ∧ Diag.typeChanged c.file n x.name f.type x.type ∈ ds := by
-  have hd := compareModules_typeChanged (o := o c.file) hn hs ht hwf hf hx hid hty
+    ∃ ds, thriftbreak o old new diff = some ds ∧ Diag.typeChanged e.src n x.name f.type x.type ∈ ds := by
+  have hd := compareModules_typeChanged (o := o e.src) hn hs ht hwf hf hx hid hty
   rw [(lookupModule_some hfrm).2] at hd
-  exact run_reports hna hc hfrm hto hd
+  exact thriftbreak_reports hsn he hfrm hto hd
 
 /-! ### witnesses -/
 
@@ -121,32 +114,40 @@ def wOld (p : Path) : Module := { path := p, services := [⟨"Svc", ["m1", "m2"]
 def wNew (p : Path) : Module := { path := p, services := [⟨"Svc", ["m1"]⟩], structs := [wS'] }
 
 /-- Non-vacuity: in the repository root all five diagnostics appear, attributed to the file. -/
-example : run wOrders [wOld ["a.thrift"]] [wNew ["a.thrift"]] [⟨["a.thrift"], .modify⟩] =
+example : thriftbreak wOrders [wOld ["a.thrift"]] [wNew ["a.thrift"]] [⟨["a.thrift"], some ["a.thrift"]⟩] =
     some [.deletedService ["a.thrift"] "Gone", .removedMethod ["a.thrift"] "Svc" "m2",
           .optToRequired ["a.thrift"] "S" "a", .typeChanged ["a.thrift"] "S" "b" "i32" "i64",
           .addedRequired ["a.thrift"] "S" "n"] := by decide
 
-/-- D31: for a file in a sub-directory the full-strength attribution clause fails: the deleted
-service and the removed method are reported for `a.thrift`, not for `sub/a.thrift` (while the
-struct diagnostics of the same run carry `sub/a.thrift`). -/
+/-- D31 (service half, known): for a file in a sub-directory the deleted service is reported for
+`a.thrift`, not for `sub/a.thrift`, while the removed method and the struct diagnostics of the
+same run carry `sub/a.thrift`. -/
 theorem removed_service_flagged_counterexample :
-    let r := run wOrders [wOld ["sub", "a.thrift"]] [wNew ["sub", "a.thrift"]] [⟨["sub", "a.thrift"], .modify⟩]
+    let r := thriftbreak wOrders [wOld ["sub", "a.thrift"]] [wNew ["sub", "a.thrift"]]
+      [⟨["sub", "a.thrift"], some ["sub", "a.thrift"]⟩]
     Diag.deletedService ["sub", "a.thrift"] "Gone" ∉ printed r ∧
     Diag.deletedService ["a.thrift"] "Gone" ∈ printed r ∧
+    Diag.removedMethod ["sub", "a.thrift"] "Svc" "m2" ∈ printed r ∧
     Diag.addedRequired ["sub", "a.thrift"] "S" "n" ∈ printed r := by decide
 
-theorem removed_method_flagged_counterexample :
-    let r := run wOrders [wOld ["sub", "a.thrift"]] [wNew ["sub", "a.thrift"]] [⟨["sub", "a.thrift"], .modify⟩]
-    Diag.removedMethod ["sub", "a.thrift"] "Svc" "m2" ∉ printed r ∧
-    Diag.removedMethod ["a.thrift"] "Svc" "m2" ∈ printed r := by decide
+/-- D30 regression witness: `a.thrift` loses a service, a method and gains required fields,
+`z.thrift` is renamed to `y.thrift` in the same commit: the diagnostics of `a.thrift` are all
+printed and the services of the old path `z.thrift` are reported as deleted. -/
+theorem rename_reported_as_deletion :
+    thriftbreak wOrders [wOld ["a.thrift"], wOld ["z.thrift"]] [wNew ["a.thrift"], wOld ["y.thrift"]]
+      [⟨["a.thrift"], some ["a.thrift"]⟩, ⟨["z.thrift"], some ["y.thrift"]⟩] =
+    some [.deletedService ["a.thrift"] "Gone", .removedMethod ["a.thrift"] "Svc" "m2",
+          .optToRequired ["a.thrift"] "S" "a", .typeChanged ["a.thrift"] "S" "b" "i32" "i64",
+          .addedRequired ["a.thrift"] "S" "n",
+          .deletedService ["z.thrift"] "Gone", .deletedService ["z.thrift"] "Svc"] := by decide
 
-/-- D30: `a.thrift` loses a service, a method and gains required fields, `z.thrift` is renamed to
-`y.thrift` in the same commit (change `modify z.thrift`, as go-git reports it): the run aborts,
-nothing at all is reported, and the exit status is 1. -/
-theorem flagged_counterexample_rename :
-    let r := run wOrders [wOld ["a.thrift"], wOld ["z.thrift"]] [wNew ["a.thrift"], wOld ["y.thrift"]]
-      [⟨["a.thrift"], .modify⟩, ⟨["z.thrift"], .modify⟩]
-    r = none ∧ printed r = [] ∧ exitCode r = 1 := by decide
+/-- Which added file go-git pairs a vanished file with (or none at all) is irrelevant. -/
+theorem pairing_irrelevant (p q : Path) (h : q ≠ p) : changeOf ⟨p, some q⟩ = changeOf ⟨p, none⟩ := by
+  simp [changeOf, h]
+
+/-- On real inputs the run is never aborted. -/
+theorem never_aborts (hsn : Snapshot old new diff) : (thriftbreak o old new diff).isSome = true :=
+  run_some_iff_noAbort.2 (noAbort_of_snapshot hsn)
 
 /-! ### compatible versions are silent -/
 
@@ -157,9 +158,14 @@ theorem identical_silent (ord : Orders) (m : Module) (hwf : m.wf) : compareModul
 /-- … and a commit that only touches comments / spacing of any number of files prints nothing
 and succeeds. -/
 theorem identical_silent_run {t : Tree} (hwf : ∀ m ∈ t, m.wf)
-    (hmod : ∀ c ∈ cs, c.action = .modify ∧ (lookupModule t c.file).isSome = true) :
-    run o t t cs = some [] ∧ exitCode (run o t t cs) = 0 := by
-  have := run_identical (o := o) (fun m hm => (hwf m hm).2.2) hmod
+    (hmod : ∀ e ∈ diff, e.dst = some e.src ∧ (lookupModule t e.src).isSome = true) :
+    thriftbreak o t t diff = some [] ∧ exitCode (thriftbreak o t t diff) = 0 := by
+  have : thriftbreak o t t diff = some [] := by
+    apply run_identical (o := o) (fun m hm => (hwf m hm).2.2)
+    intro c hc
+    obtain ⟨e, he, rfl⟩ := List.mem_map.1 hc
+    obtain ⟨hd, hs⟩ := hmod e he
+    simp [changeOf, hd, hs]
   rw [this]; exact ⟨rfl, rfl⟩
 
 example : compareModules (wOrders []) (wOld ["a.thrift"]) (wOld ["a.thrift"]) = [] := by decide
@@ -193,8 +199,12 @@ theorem additive_silent_constant (ord : Orders) (m : Module) (hwf : m.wf) (n : S
     compareModules ord m (addConstant m n) = [] := compareModules_self (m := m) hwf.2.2
 
 /-- a new file: it is not in the change list, and the run is the same with or without it -/
-theorem additive_silent_file (m : Module) (hnot : ∀ c ∈ cs, c.file ≠ m.path) :
-    run o old (new ++ [m]) cs = run o old new cs := run_addFile hnot
+theorem additive_silent_file (m : Module) (hnot : ∀ e ∈ diff, e.src ≠ m.path) :
+    thriftbreak o old (new ++ [m]) diff = thriftbreak o old new diff := by
+  apply run_addFile
+  intro c hc
+  obtain ⟨e, he, rfl⟩ := List.mem_map.1 hc
+  rw [changeOf_file]; exact hnot e he
 
 example : compareModules (wOrders []) (wOld ["a.thrift"])
     (addStruct (addService (addMethod (addField (wOld ["a.thrift"]) "S" ⟨9, "z", false, "St"⟩) "Svc" "m9")
@@ -223,34 +233,33 @@ theorem order_independent_fields {file : Path} {sn : String} {fromFs fromFs' toF
     (compareFields file sn fromFs toFs).Perm (compareFields file sn fromFs' toFs') :=
   compareFields_perm hf hnd ht
 
-/-- The whole run: permuting the change list, the files of either tree and every visit order
-changes neither whether the run aborts nor the multiset of printed diagnostics. -/
-theorem order_independent_run {o' : Path → Orders} {old' new' : Tree} {cs' : List Change}
-    (ho : ∀ p, (o p).Equiv (o' p)) (hold : old.Perm old') (hnew : new.Perm new') (hcs : cs.Perm cs')
+/-- The whole run: permuting the tree diff, the files of either tree and every visit order changes
+neither whether the run succeeds nor the multiset of printed diagnostics. -/
+theorem order_independent_run {o' : Path → Orders} {old' new' : Tree} {diff' : List DiffEntry}
+    (ho : ∀ p, (o p).Equiv (o' p)) (hold : old.Perm old') (hnew : new.Perm new') (hd : diff.Perm diff')
     (holdn : (old.map (·.path)).Nodup) (hnewn : (new.map (·.path)).Nodup)
     (holdw : ∀ m ∈ old, NodupNames m) (hneww : ∀ m ∈ new, NodupNames m) :
-    ResPerm (run o old new cs) (run o' old' new' cs') :=
-  run_perm ho hold hnew hcs holdn hnewn holdw hneww
+    ResPerm (thriftbreak o old new diff) (thriftbreak o' old' new' diff') :=
+  run_perm ho hold hnew (hd.map changeOf) holdn hnewn holdw hneww
 
 example : compareModules ⟨["Svc", "Gone"], ["S"], fun _ => ["m1", "m2"]⟩ (wOld ["a.thrift"]) (wNew ["a.thrift"]) ≠
     compareModules (wOrders []) (wOld ["a.thrift"]) (wNew ["a.thrift"]) := by decide
 
 /-! ### exit status -/
 
-/-- thriftbreak exits non-zero exactly when it printed at least one diagnostic.
-PARTIAL: only when the run is not aborted (D30). -/
-theorem exit_nonzero_iff_nonempty_partial (hna : NoAbort old new cs) :
-    exitCode (run o old new cs) ≠ 0 ↔ printed (run o old new cs) ≠ [] := by
-  rw [run_of_noAbort hna]
-  cases cs.flatMap (fileDiags o old new) <;> simp [exitCode, printed]
+/-- thriftbreak exits non-zero exactly when it printed at least one diagnostic. -/
+theorem exit_nonzero_iff_nonempty (hsn : Snapshot old new diff) :
+    exitCode (thriftbreak o old new diff) ≠ 0 ↔ printed (thriftbreak o old new diff) ≠ [] := by
+  unfold thriftbreak
+  rw [run_of_noAbort (noAbort_of_snapshot hsn)]
+  cases (diff.map changeOf).flatMap (fileDiags o old new) <;> simp [exitCode, printed]
 
-/-- D30: a commit that only renames a file exits 1 having printed nothing. -/
-theorem exit_nonzero_iff_nonempty_counterexample :
-    let r := run wOrders [wOld ["z.thrift"]] [wOld ["y.thrift"]] [⟨["z.thrift"], .modify⟩]
-    exitCode r ≠ 0 ∧ printed r = [] := by decide
+example : exitCode (thriftbreak wOrders [wOld ["z.thrift"]] [wOld ["y.thrift"]] [⟨["z.thrift"], some ["y.thrift"]⟩]) = 1 ∧
+    exitCode (thriftbreak wOrders [wOld ["z.thrift"]] [wOld ["z.thrift"]] [⟨["z.thrift"], some ["z.thrift"]⟩]) = 0 := by decide
 
-/-- The run aborts exactly when some compile of the loop fails. -/
-theorem aborts_iff : run o old new cs = none ↔ ¬ NoAbort old new cs := by
+/-- The loop itself still aborts when a compile fails (a version that does not compile, outside
+the property's domain): exactly then. -/
+theorem aborts_iff {cs : List Change} : run o old new cs = none ↔ ¬ NoAbort old new cs := by
   constructor
   · intro h hna; rw [run_of_noAbort hna] at h; exact absurd h (by simp)
   · exact run_none_of_abort
